@@ -467,7 +467,7 @@ type call struct {
 
 // verdicts of judge
 const (
-	vOK = iota
+	vOK              = iota
 	vKnownInvertible // open finding whose defective map is still a permutation (the round trip stays demanded)
 	vFail
 )
